@@ -374,4 +374,276 @@ theorem Coll.dropIndex_np (c : Coll) (name : String) : NP (c.dropIndex name) := 
   unfold Coll.dropIndex
   np_auto []
 
+/-! ### Transaction -/
+
+def Err.isPanic : Err → Bool
+  | .panic _ => true
+  | _ => false
+
+/-- an optional stored error is not a panic -/
+def OptNP (e : Option Err) : Prop := ∀ site, e ≠ some (.panic site)
+
+theorem OptNP_none : OptNP none := by intro s h; cases h
+
+theorem OptNP_of_NP {α} {r : Res α} (h : NP r) {e : Err} (he : r = .error e) : OptNP (some e) := by
+  intro s h'; cases h'; exact h s he
+
+/-- the per-operation results of a transaction method carry no panic -/
+def TResult.NP (r : TResult) : Prop := OptNP r.error
+
+theorem Handle.validate_np (h : Handle) (b : Bool) : NP (h.validate b) := by
+  unfold Handle.validate
+  np_auto []
+
+theorem writable_np (h : Handle) (b : Bool) : NP (writable h b) := by
+  unfold writable
+  np_auto [Handle.validate_np _ _]
+
+theorem Txn.create_np (t : Txn) (h : Handle) : NP (t.create h) := by
+  unfold Txn.create
+  np_auto [writable_np _ _]
+
+theorem Txn.find_np (sch : SchemaEval) (hs : SchNoPanic sch) (t : Txn) (h : Handle) (query : Doc)
+    (sort : Option Doc) (skip limit : Int) : NP (t.find sch h query sort skip limit) := by
+  unfold Txn.find
+  np_auto [Handle.validate_np _ _, Coll.find_np sch hs _ _ _ _ _]
+
+theorem insertOne_np (sch : SchemaEval) (hs : SchNoPanic sch) (cat : Catalog) (h : Handle) (d : Doc) (nu : Nu) :
+    NP (insertOne sch cat h d nu) := by
+  unfold insertOne
+  np_auto [Coll.insert_np sch hs _ _ _]
+
+theorem Txn.insert.go_np (sch : SchemaEval) (hs : SchNoPanic sch) (h : Handle) (ordered : Bool) (cat : Catalog)
+    (nu : Nu) (acc : List Doc) (err : Option Err) (l : List Doc) (he : OptNP err) :
+    OptNP (Txn.insert.go sch h ordered cat nu acc err l).2.2.2 := by
+  induction l generalizing cat nu acc err with
+  | nil => unfold Txn.insert.go; exact he
+  | cons d r ih =>
+    unfold Txn.insert.go
+    split
+    · rename_i e hie
+      have hne : OptNP (if err.isNone = true then some e else err) := by
+        split
+        · exact OptNP_of_NP (insertOne_np sch hs _ _ _ _) hie
+        · exact he
+      simp only
+      split
+      · exact hne
+      · exact ih _ _ _ _ hne
+    · exact ih _ _ _ _ he
+
+/-- `Transaction.Insert` never fails with a panic, and the error it stores in the result is none either -/
+theorem Txn.insert_np (sch : SchemaEval) (t : Txn) (h : Handle) (list : List Doc)
+    (ordered : Bool) (nu : Nu) : NP (t.insert sch h list ordered nu) := by
+  unfold Txn.insert
+  np_auto [writable_np _ _]
+
+theorem Txn.insert_result_np (sch : SchemaEval) (hs : SchNoPanic sch) (t t' : Txn) (h : Handle) (list : List Doc)
+    (ordered : Bool) (nu nu' : Nu) (r : TResult) (hr : t.insert sch h list ordered nu = .ok (t', r, nu')) :
+    r.NP := by
+  unfold Txn.insert at hr
+  split at hr
+  · cases hr
+  · have key := fun base => Txn.insert.go_np sch hs h ordered base nu [] none list OptNP_none
+    simp only at hr
+    repeat' split at hr
+    all_goals (cases hr; exact key _)
+theorem replaceOp_np (ac : ACtx) (hs : SchNoPanic ac.sch) (cat : Catalog) (h : Handle) (query repl : Doc)
+    (sort : Option Doc) (upsert : Bool) (nu : Nu) : NP (replaceOp ac cat h query repl sort upsert nu) := by
+  unfold replaceOp
+  simp only
+  np_auto [Coll.replace_np ac.sch hs _ _ _ _ _, Coll.upsert_np ac hs _ _ _ _ _ _]
+
+theorem updateOp_np (ac : ACtx) (hs : SchNoPanic ac.sch) (cat : Catalog) (h : Handle) (query update : Doc)
+    (sort : Option Doc) (upsert : Bool) (skip limit : Int) (afs : List Doc) (nu : Nu) :
+    NP (updateOp ac cat h query update sort upsert skip limit afs nu) := by
+  unfold updateOp
+  simp only
+  np_auto [Coll.update_np ac hs _ _ _ _ _ _ _ _, Coll.upsert_np ac hs _ _ _ _ _ _]
+
+theorem deleteOp_np (sch : SchemaEval) (hs : SchNoPanic sch) (cat : Catalog) (h : Handle) (query : Doc)
+    (sort : Option Doc) (skip limit : Int) (nu : Nu) : NP (deleteOp sch cat h query sort skip limit nu) := by
+  unfold deleteOp
+  simp only
+  np_auto [Coll.delete_np sch hs _ _ _ _ _]
+
+theorem replaceOp_result (ac : ACtx) (cat cat' : Catalog) (h : Handle) (query repl : Doc)
+    (sort : Option Doc) (upsert : Bool) (nu nu' : Nu) (r : TResult)
+    (hr : replaceOp ac cat h query repl sort upsert nu = .ok (cat', r, nu')) : r.error = none := by
+  unfold replaceOp at hr
+  simp only at hr
+  repeat' split at hr
+  all_goals first | (cases hr; done) | (cases hr; rfl)
+
+theorem updateOp_result (ac : ACtx) (cat cat' : Catalog) (h : Handle) (query update : Doc)
+    (sort : Option Doc) (upsert : Bool) (skip limit : Int) (afs : List Doc) (nu nu' : Nu) (r : TResult)
+    (hr : updateOp ac cat h query update sort upsert skip limit afs nu = .ok (cat', r, nu')) : r.error = none := by
+  unfold updateOp at hr
+  simp only at hr
+  repeat' split at hr
+  all_goals first | (cases hr; done) | (cases hr; rfl)
+
+theorem deleteOp_result (sch : SchemaEval) (cat cat' : Catalog) (h : Handle) (query : Doc)
+    (sort : Option Doc) (skip limit : Int) (nu nu' : Nu) (r : TResult)
+    (hr : deleteOp sch cat h query sort skip limit nu = .ok (cat', r, nu')) : r.error = none := by
+  unfold deleteOp at hr
+  simp only at hr
+  repeat' split at hr
+  all_goals first | (cases hr; done) | (cases hr; rfl)
+
+theorem Txn.replace_np (ac : ACtx) (hs : SchNoPanic ac.sch) (t : Txn) (h : Handle) (query : Doc)
+    (sort : Option Doc) (repl : Doc) (upsert : Bool) (nu : Nu) :
+    NP (t.replace ac h query sort repl upsert nu) := by
+  unfold Txn.replace
+  np_auto [writable_np _ _, replaceOp_np ac hs _ _ _ _ _ _ _]
+
+theorem Txn.update_np (ac : ACtx) (hs : SchNoPanic ac.sch) (t : Txn) (h : Handle) (query : Doc)
+    (sort : Option Doc) (update : Doc) (skip limit : Int) (upsert : Bool) (afs : List Doc) (nu : Nu) :
+    NP (t.update ac h query sort update skip limit upsert afs nu) := by
+  unfold Txn.update
+  np_auto [writable_np _ _, updateOp_np ac hs _ _ _ _ _ _ _ _ _ _]
+
+theorem Txn.delete_np (sch : SchemaEval) (hs : SchNoPanic sch) (t : Txn) (h : Handle) (query : Doc)
+    (sort : Option Doc) (skip limit : Int) (nu : Nu) : NP (t.delete sch h query sort skip limit nu) := by
+  unfold Txn.delete
+  np_auto [writable_np _ _, deleteOp_np sch hs _ _ _ _ _ _ _]
+
+theorem Txn.replace_result (ac : ACtx) (t t' : Txn) (h : Handle) (query : Doc)
+    (sort : Option Doc) (repl : Doc) (upsert : Bool) (nu nu' : Nu) (r : TResult)
+    (hr : t.replace ac h query sort repl upsert nu = .ok (t', r, nu')) : r.error = none := by
+  unfold Txn.replace at hr
+  repeat' split at hr
+  all_goals first | (cases hr; done) | (cases hr; rfl) | (cases hr; exact replaceOp_result _ _ _ _ _ _ _ _ _ _ _ ‹_›)
+
+theorem Txn.update_result (ac : ACtx) (t t' : Txn) (h : Handle) (query : Doc)
+    (sort : Option Doc) (update : Doc) (skip limit : Int) (upsert : Bool) (afs : List Doc) (nu nu' : Nu) (r : TResult)
+    (hr : t.update ac h query sort update skip limit upsert afs nu = .ok (t', r, nu')) : r.error = none := by
+  unfold Txn.update at hr
+  repeat' split at hr
+  all_goals first | (cases hr; done) | (cases hr; rfl) | (cases hr; exact updateOp_result _ _ _ _ _ _ _ _ _ _ _ _ _ _ ‹_›)
+
+theorem Txn.delete_result (sch : SchemaEval) (t t' : Txn) (h : Handle) (query : Doc)
+    (sort : Option Doc) (skip limit : Int) (nu nu' : Nu) (r : TResult)
+    (hr : t.delete sch h query sort skip limit nu = .ok (t', r, nu')) : r.error = none := by
+  unfold Txn.delete at hr
+  repeat' split at hr
+  all_goals first | (cases hr; done) | (cases hr; rfl) | (cases hr; exact deleteOp_result _ _ _ _ _ _ _ _ _ _ _ ‹_›)
+
+/-- all stored per-operation errors are panic free -/
+def ResultsNP (rs : List TResult) : Prop := ∀ r ∈ rs, TResult.NP r
+
+theorem ResultsNP_nil : ResultsNP [] := by intro r h; cases h
+
+theorem ResultsNP_append {a : List TResult} {r : TResult} (ha : ResultsNP a) (hr : r.NP) : ResultsNP (a ++ [r]) := by
+  intro x hx
+  rcases List.mem_append.mp hx with h | h
+  · exact ha x h
+  · cases List.mem_singleton.mp h; exact hr
+
+theorem TResult.NP_of_none {r : TResult} (h : r.error = none) : r.NP := by
+  unfold TResult.NP; rw [h]; exact OptNP_none
+
+/-- the operation dispatch of `Transaction.Bulk` -/
+theorem bulkDispatch_np (ac : ACtx) (hs : SchNoPanic ac.sch) (cat : Catalog) (h : Handle) (op : Operation) (nu : Nu) :
+    NP (match op.opcode with
+        | .insert => (match insertOne ac.sch cat h op.document nu with
+          | .error e => .error e
+          | .ok (c, d, n) => .ok (c, ({ modified := [d] } : TResult), n) : Res (Catalog × TResult × Nu))
+        | .replace => replaceOp ac cat h op.filter op.document op.sort op.upsert nu
+        | .update => updateOp ac cat h op.filter op.document op.sort op.upsert op.skip op.limit op.arrayFilters nu
+        | .delete => deleteOp ac.sch cat h op.filter op.sort op.skip op.limit nu) := by
+  np_auto [insertOne_np ac.sch hs _ _ _ _, replaceOp_np ac hs _ _ _ _ _ _ _, updateOp_np ac hs _ _ _ _ _ _ _ _ _ _,
+    deleteOp_np ac.sch hs _ _ _ _ _ _ _]
+
+theorem bulkDispatch_result (ac : ACtx) (cat cat' : Catalog) (h : Handle) (op : Operation) (nu nu' : Nu) (tr : TResult)
+    (hr : (match op.opcode with
+        | .insert => (match insertOne ac.sch cat h op.document nu with
+          | .error e => .error e
+          | .ok (c, d, n) => .ok (c, ({ modified := [d] } : TResult), n) : Res (Catalog × TResult × Nu))
+        | .replace => replaceOp ac cat h op.filter op.document op.sort op.upsert nu
+        | .update => updateOp ac cat h op.filter op.document op.sort op.upsert op.skip op.limit op.arrayFilters nu
+        | .delete => deleteOp ac.sch cat h op.filter op.sort op.skip op.limit nu) = .ok (cat', tr, nu')) :
+    tr.error = none := by
+  split at hr
+  · split at hr
+    · cases hr
+    · cases hr; rfl
+  · exact replaceOp_result _ _ _ _ _ _ _ _ _ _ _ hr
+  · exact updateOp_result _ _ _ _ _ _ _ _ _ _ _ _ _ _ hr
+  · exact deleteOp_result _ _ _ _ _ _ _ _ _ _ _ hr
+
+theorem Txn.bulk.go_np (ac : ACtx) (hs : SchNoPanic ac.sch) (h : Handle) (ordered : Bool) (cat : Catalog)
+    (nu : Nu) (acc : List TResult) (changes : Nat) (ops : List Operation) (ha : ResultsNP acc) :
+    ResultsNP (Txn.bulk.go ac h ordered cat nu acc changes ops).2.2.1 := by
+  induction ops generalizing cat nu acc changes with
+  | nil => unfold Txn.bulk.go; exact ha
+  | cons op r ih =>
+    unfold Txn.bulk.go
+    simp only
+    split
+    · rename_i e he
+      have hacc : ResultsNP (acc ++ [{ error := some e }]) :=
+        ResultsNP_append ha (OptNP_of_NP (bulkDispatch_np ac hs cat h op nu) he)
+      split
+      · exact hacc
+      · exact ih _ _ _ _ hacc
+    · rename_i cat' tr nu' he
+      exact ih _ _ _ _ (ResultsNP_append ha (TResult.NP_of_none (bulkDispatch_result ac cat cat' h op nu nu' tr he)))
+
+theorem Txn.bulk_np (ac : ACtx) (t : Txn) (h : Handle) (ops : List Operation) (ordered : Bool) (nu : Nu) :
+    NP (t.bulk ac h ops ordered nu) := by
+  unfold Txn.bulk
+  np_auto [writable_np _ _]
+
+theorem Txn.bulk_result_np (ac : ACtx) (hs : SchNoPanic ac.sch) (t t' : Txn) (h : Handle) (ops : List Operation)
+    (ordered : Bool) (nu nu' : Nu) (rs : List TResult) (hr : t.bulk ac h ops ordered nu = .ok (t', rs, nu')) :
+    ResultsNP rs := by
+  unfold Txn.bulk at hr
+  split at hr
+  · cases hr
+  · have key := fun base => Txn.bulk.go_np ac hs h ordered base nu [] 0 ops ResultsNP_nil
+    simp only at hr
+    repeat' split at hr
+    all_goals (cases hr; exact key _)
+
+theorem Txn.drop_np (t : Txn) (h : Handle) (nu : Nu) : NP (t.drop h nu) := by
+  unfold Txn.drop
+  np_auto [writable_np _ _]
+
+theorem Txn.createIndex_np (sch : SchemaEval) (hs : SchNoPanic sch) (t : Txn) (h : Handle) (name : String)
+    (config : IndexConfig) : NP (t.createIndex sch h name config) := by
+  unfold Txn.createIndex
+  np_auto [writable_np _ _, Coll.createIndex_np sch hs _ _ _]
+
+theorem Txn.dropIndex_np (t : Txn) (h : Handle) (name : String) : NP (t.dropIndex h name) := by
+  unfold Txn.dropIndex
+  np_auto [writable_np _ _, Coll.dropIndex_np _ _]
+
+theorem Txn.dropIndexByKey_np (t : Txn) (h : Handle) (key : Doc) : NP (t.dropIndexByKey h key) := by
+  unfold Txn.dropIndexByKey
+  np_auto [writable_np _ _, Txn.dropIndex_np _ _ _]
+
+theorem Txn.listIndexes_np (t : Txn) (h : Handle) : NP (t.listIndexes h) := by
+  unfold Txn.listIndexes
+  np_auto [Handle.validate_np _ _]
+
+theorem Txn.count_np (t : Txn) (h : Handle) : NP (t.count h) := by
+  unfold Txn.count
+  np_auto [Handle.validate_np _ _]
+
+theorem Txn.expire.go_np (sch : SchemaEval) (hs : SchNoPanic sch) (nowMs : Int) (cat : Catalog) (nu : Nu)
+    (deleted : Nat) (l : List (Handle × Coll)) : NP (Txn.expire.go sch nowMs cat nu deleted l) := by
+  induction l generalizing cat nu deleted with
+  | nil => exact NP_ok _
+  | cons hc r ih =>
+    obtain ⟨h, c⟩ := hc
+    unfold Txn.expire.go
+    np_auto [ih _ _ _, deleteOp_np sch hs _ _ _ _ _ _ _]
+
+theorem Txn.expire_np (sch : SchemaEval) (hs : SchNoPanic sch) (t : Txn) (nowMs : Int) (nu : Nu) :
+    NP (t.expire sch nowMs nu) := by
+  unfold Txn.expire
+  np_auto [Txn.expire.go_np sch hs _ _ _ _ _]
+
+
 end Lungo
